@@ -50,7 +50,7 @@ type Sched struct {
 	stamp    int64
 	SiteHits map[string]int64
 	Stuck    bool // step budget exhausted with runnable tasks left
-	Debug bool
+	Debug    bool
 	// Finer-grain filter: which sites are live this run (nil = all).
 	Live func(site string) bool
 }
